@@ -207,6 +207,9 @@ def is_tag_child(x: object) -> TypeIs[TagChild]:
         (
             # TagNode, # Handled above
             TagList,
+            # The `float` in `TagChild` means any real number; ints are accepted (and
+            # converted to str) by TagList/Tag just like floats are.
+            int,
             float,
             # None, # Handled above
             Sequence,
